@@ -512,6 +512,19 @@ def body(chk, db, cfgname):
                                 ((("true", bj) in ffa or ("true", ("mcall", "boost::dynamic_bitset::reference::operator bool", bj)) in ffa) and stmt_before(f, j, Wt)):
                             sgn_ok = True
         sign_loops = [j for j, n in f.walk(f.body) if n["k"] in ("for", "while", "forrange") and j not in Ls[-1:] and any(is_sign_flip(ctx, m_) for x, m_ in f.walk(n["body"]))]
+        # positive evidence of a width limit: a fixed-width integer mask obtained by shifting a literal by the mode index
+        # ((1ul << ind) - 1 as "all modes below ind"): it wraps once the index reaches the width of the integer, while FockState
+        # (a dynamic bitset) and the polynomial algebra carry any number of modes
+        shift_masks = []
+        for j, n in f.walk(f.body):
+            if n["k"] == "bin" and n["op"] == "<<":
+                lk_, rk_ = ctx.key(n["l"]), ctx.key(n["r"])
+                while lk_[0] == "cast" and len(lk_) == 3:
+                    lk_ = lk_[2]
+                if lk_[0] == "lit" and isinstance(lk_[1], int) and (rk_ == ind or comp_of(rk_) == 1 or key_contains(rk_, lambda y: y == ind or comp_of(y) == 1)):
+                    shift_masks.append(j)
+        if shift_masks:
+            probs.append("the modes below the index are selected with a fixed-width integer mask (%s): the shift wraps for indices at or beyond the width of the integer (64), so for states with more modes the Jordan-Wigner sign is wrong" % f.s(shift_masks[0])[:40])
         if not sgn_ok and not sign_loops:
             # no loop that flips a sign per occupied mode: the sign is obtained in another way (masks, popcount, a helper); whether
             # that equals the parity of the occupied modes below the index is not decided here
